@@ -459,6 +459,20 @@ def run_replay(path):
 
 
 def main(argv):
+    # every temporary directory of this run (lock files, victims' scratch, fuzz corpora) lives below one
+    # directory that is removed when the run ends, however the shards exit
+    import shutil
+    import tempfile
+    run_tmp = tempfile.mkdtemp(prefix='vf_run_')
+    os.environ['TMPDIR'] = run_tmp
+    tempfile.tempdir = run_tmp
+    try:
+        return _main(argv)
+    finally:
+        shutil.rmtree(run_tmp, ignore_errors=True)
+
+
+def _main(argv):
     sys.path.insert(0, REPO)
     if argv and argv[0] == '--replay':
         return run_replay(argv[1])
